@@ -49,30 +49,32 @@ Definition value_ok (k : pkind) (v : pval) : Prop :=
   | _ => True
   end.
 
-Lemma read_value_write : forall k v rest, value_ok k v ->
+Lemma read_value_write : forall k v, value_ok k v ->
   exists bs, value_bytes v = Ok bs /\ len bs = value_len v /\
-             read_value 0 k (bs ++ rest) = Ok (v, value_len v, rest).
+             forall rest, read_value 0 k (bs ++ rest) = Ok (v, value_len v, rest).
 Proof.
-  intros k v rest (Hk & Hwf & Hu).
+  intros k v (Hk & Hwf & Hu).
   destruct v as [n | n | n | n | s | s | a b]; destruct k; cbn [kind_matches] in Hk; try discriminate;
     cbn [wf_value] in Hwf; cbn [value_bytes value_len read_value].
-  - exists [n]. split; [reflexivity |]. split; [reflexivity |]. cbn [app]. rewrite read_u8_cons. reflexivity.
-  - exists (u16_be n). split; [reflexivity |]. split; [reflexivity |].
+  - exists [n]. split; [reflexivity |]. split; [reflexivity |]. intros rest. cbn [app]. rewrite read_u8_cons. reflexivity.
+  - exists (u16_be n). split; [reflexivity |]. split; [reflexivity |]. intros rest.
     rewrite read_u16_u16_be by lia. reflexivity.
-  - exists (u32_be n). split; [reflexivity |]. split; [reflexivity |].
+  - exists (u32_be n). split; [reflexivity |]. split; [reflexivity |]. intros rest.
     rewrite read_u32_u32_be by lia. reflexivity.
   - unfold MAX_REMAINING in Hwf.
-    destruct (length_write_remaining n rest ltac:(lia)) as (bs & Hw & Hl & Hv).
-    exists bs. split; [exact Hw |]. split; [exact Hl |]. rewrite Hv. cbn [bind].
-    rewrite <- Hl, advance_app. cbn [bind]. rewrite Hl. reflexivity.
-  - exists (write_mqtt_bytes s). split; [reflexivity |]. split; [apply len_write_mqtt_bytes |].
+    destruct (length_write_remaining n [] ltac:(lia)) as (bs & Hw & Hl & _).
+    exists bs. split; [exact Hw |]. split; [exact Hl |]. intros rest.
+    destruct (length_write_remaining n rest ltac:(lia)) as (bs' & Hw' & _ & Hv).
+    assert (bs' = bs) by congruence. subst bs'.
+    rewrite Hv. cbn [bind]. rewrite <- Hl, advance_app. cbn [bind]. rewrite Hl. reflexivity.
+  - exists (write_mqtt_bytes s). split; [reflexivity |]. split; [apply len_write_mqtt_bytes |]. intros rest.
     change (write_mqtt_bytes s) with (write_mqtt_string s).
     rewrite read_mqtt_string_write; [reflexivity | apply str_ok_len; exact Hwf | exact Hu].
-  - exists (write_mqtt_bytes s). split; [reflexivity |]. split; [apply len_write_mqtt_bytes |].
+  - exists (write_mqtt_bytes s). split; [reflexivity |]. split; [apply len_write_mqtt_bytes |]. intros rest.
     rewrite read_mqtt_bytes_write; [reflexivity | apply str_ok_len; exact Hwf].
   - apply andb_prop in Hwf. destruct Hwf as [Ha Hb]. destruct Hu as [Hua Hub].
     exists (write_mqtt_bytes a ++ write_mqtt_bytes b). split; [reflexivity |].
-    split; [rewrite len_app, !len_write_mqtt_bytes; lia |].
+    split; [rewrite len_app, !len_write_mqtt_bytes; lia |]. intros rest.
     rewrite <- app_assoc. change (write_mqtt_bytes a) with (write_mqtt_string a).
     rewrite read_mqtt_string_write; [| apply str_ok_len; exact Ha | exact Hua]. cbn [bind].
     change (write_mqtt_bytes b) with (write_mqtt_string b).
@@ -99,38 +101,38 @@ Proof.
   pose proof (len_len_range n). lia.
 Qed.
 
-Lemma props_loop_write : forall tab l fuel cursor plen rest,
-  Forall (prop_ok tab) l -> cursor + plist_len l = plen ->
-  exists bs, plist_bytes l = Ok bs /\ len bs = plist_len l /\
-             ((length (bs ++ rest) < fuel)%nat ->
-              props_loop 0 tab fuel cursor plen (bs ++ rest) = Ok (l, rest)).
+Lemma plist_bytes_ok : forall tab l, Forall (prop_ok tab) l ->
+  exists bs, plist_bytes l = Ok bs /\ len bs = plist_len l.
 Proof.
-  intros tab l. induction l as [| [id v] l IH]; intros fuel cursor plen rest Hok Hsum.
-  - exists []. split; [reflexivity |]. split; [reflexivity |]. intros _.
-    cbn [plist_len] in Hsum. destruct fuel; cbn [props_loop app];
-      replace (cursor <? plen) with false by lia; reflexivity.
+  intros tab l. induction l as [| [id v] l IH]; intros Hok.
+  - exists []. split; reflexivity.
+  - inversion Hok as [| p l' Hp Hl']; subst. destruct Hp as (_ & k & _ & Hv). cbn [snd] in Hv.
+    destruct (read_value_write k v Hv) as (vb & Hvb & Hvl & _).
+    destruct (IH Hl') as (bs & Hbs & Hbl).
+    exists (id :: vb ++ bs). cbn [plist_bytes fst snd]. rewrite Hvb. cbn [bind]. rewrite Hbs.
+    split; [reflexivity |]. rewrite len_cons, len_app, Hvl, Hbl. cbn [plist_len]. unfold prop_len. cbn [snd]. lia.
+Qed.
+
+Lemma props_loop_read : forall tab l bs, Forall (prop_ok tab) l -> plist_bytes l = Ok bs ->
+  forall fuel cursor plen rest, cursor + plist_len l = plen -> (length (bs ++ rest) < fuel)%nat ->
+  props_loop 0 tab fuel cursor plen (bs ++ rest) = Ok (l, rest).
+Proof.
+  intros tab l. induction l as [| [id v] l IH]; intros bs Hok Hbs fuel cursor plen rest Hsum Hfuel.
+  - cbn [plist_bytes] in Hbs. inversion Hbs; subst bs. cbn [plist_len] in Hsum.
+    destruct fuel; cbn [props_loop app]; replace (cursor <? plen) with false by lia; reflexivity.
   - inversion Hok as [| p l' Hp Hl']; subst. destruct Hp as (Hin & k & Hk & Hv). cbn [fst snd] in *.
+    destruct (read_value_write k v Hv) as (vb & Hvb & Hvl & Hrv).
+    cbn [plist_bytes fst snd] in Hbs. rewrite Hvb in Hbs. cbn [bind] in Hbs.
+    destruct (plist_bytes l) as [tl | e | t] eqn:Htl; cbn [bind] in Hbs; try discriminate.
+    inversion Hbs; subst bs.
     cbn [plist_len] in Hsum. unfold prop_len in Hsum. cbn [snd] in Hsum.
-    destruct (read_value_write k v
-                (match IH fuel (cursor + 1 + value_len v) plen rest Hl' ltac:(lia) with ex_intro _ b _ => b end ++ rest) Hv)
-      as (vb & Hvb & Hvl & Hrv).
-    destruct (IH (pred fuel) (cursor + 1 + value_len v) plen rest Hl' ltac:(lia)) as (bs & Hbs & Hbl & Hloop).
-    destruct (IH fuel (cursor + 1 + value_len v) plen rest Hl' ltac:(lia)) as (bs' & Hbs' & Hbl' & _).
-    assert (bs' = bs) by congruence. subst bs'.
-    exists (id :: vb ++ bs). split.
-    { cbn [plist_bytes fst snd]. rewrite Hvb. cbn [bind]. rewrite Hbs. reflexivity. }
-    split.
-    { rewrite len_cons, len_app, Hvl, Hbl. cbn [plist_len]. unfold prop_len. cbn [snd]. lia. }
-    intros Hfuel. destruct fuel as [| fuel]; [lia |]. cbn [props_loop].
     pose proof (prop_len_pos (id, v)) as Hpos. unfold prop_len in Hpos. cbn [snd] in Hpos.
+    destruct fuel as [| fuel]; [lia |]. cbn [props_loop].
     replace (cursor <? plen) with true by lia.
     cbn [app]. rewrite read_u8_cons. cbn [bind]. rewrite Hk, Hin. cbn [negb].
-    rewrite <- app_assoc.
-    destruct (read_value_write k v (bs ++ rest) Hv) as (vb2 & Hvb2 & _ & Hrv2).
-    assert (vb2 = vb) by congruence. subst vb2.
-    rewrite Hrv2. cbn [bind pred] in *.
-    rewrite Hloop; [reflexivity |].
-    cbn [length app] in Hfuel. rewrite app_length in Hfuel. rewrite !app_length in *. lia.
+    rewrite <- app_assoc, Hrv. cbn [bind].
+    rewrite (IH tl Hl' eq_refl fuel (cursor + 1 + value_len v) plen rest); [reflexivity | lia |].
+    cbn [length app] in Hfuel. rewrite !app_length in *. lia.
 Qed.
 
 (* ------------------------------------------------------------------ a whole property section *)
@@ -172,20 +174,15 @@ Proof.
     apply andb_prop in Hwf. destruct Hwf as [_ Hcanon]. unfold is_canon in Hcanon. apply plist_eqb_eq in Hcanon.
     cbn [repr_props] in Hrepr. unfold MAX_REMAINING in Hlen.
     pose proof (forall_prop_ok tab l0 Hrepr Hvals) as Hok.
-    destruct (length_write_remaining (plist_len l0)
-                (match props_loop_write tab l0 O 0 (plist_len l0) rest Hok ltac:(lia) with ex_intro _ b _ => b end ++ rest)
-                ltac:(lia)) as (hb & Hhb & Hhl & Hhv).
-    destruct (props_loop_write tab l0 (S (length (match props_loop_write tab l0 O 0 (plist_len l0) rest Hok ltac:(lia) with ex_intro _ b _ => b end ++ rest)))
-                0 (plist_len l0) rest Hok ltac:(lia)) as (bs & Hbs & Hbl & Hloop).
-    destruct (props_loop_write tab l0 O 0 (plist_len l0) rest Hok ltac:(lia)) as (bs' & Hbs' & _ & _).
-    assert (bs' = bs) by congruence. subst bs'.
+    destruct (plist_bytes_ok tab l0 Hok) as (bs & Hbs & Hbl).
+    destruct (length_write_remaining (plist_len l0) (bs ++ rest) ltac:(lia)) as (hb & Hhb & Hhl & Hhv).
     exists (hb ++ bs). cbn [write_props props_len]. rewrite Hcanon, Hhb. cbn [bind]. rewrite Hbs.
     split; [reflexivity |]. split; [rewrite len_app, Hhl, Hbl; reflexivity |].
     unfold read_props. rewrite <- app_assoc, Hhv. cbn [bind].
     rewrite <- Hhl, advance_app. cbn [bind].
     pose proof (prop_len_pos p) as Hpos.
     replace (plist_len l0 =? 0) with false by (subst l0; cbn [plist_len]; lia).
-    rewrite Hloop by lia. cbn [bind]. rewrite Hcanon. reflexivity.
+    rewrite (props_loop_read tab l0 bs Hok Hbs) by lia. cbn [bind]. rewrite Hcanon. reflexivity.
   - (* None *)
     exists [0]. cbn [write_props props_len]. rewrite wrl_0'. split; [reflexivity |]. split; [reflexivity |].
     apply read_props_zero.
